@@ -51,8 +51,10 @@ def _globals_for(modules):
 
 
 def catalog():
-    from . import c01, c02, c14
+    from . import c01, c02, c14, gpu
     return {
+        "drivers": ("drivers", 50, "dll/OpenCL/CUDA drivers agree on kernel arguments, result size, read-back, kernel selection and q layout", gpu.rule_drivers),
+        "gpu": ("gpu", 2000, "OpenCL configuration of the kernels: work-item bound, carried q-point sums, gated accumulation (all units)", gpu.make_gpu_rule()),
         "eqvol": ("eqvol", 15, "equivalent-volume-sphere radius mode agrees with form_volume in every model", c14.make_c_rule("R-C14-eqvol")),
         "modes": ("modes", 55, "radius_effective mode list <-> case labels in every model", c14.make_c_rule("R-C14-modes")),
         "carry": ("carry", 300, "kernel accumulators carried/reset correctly across invocations (all units)", _kernel_rule("R-C01-carry")),
